@@ -6,12 +6,15 @@ import vflib
 from vflib import Verdict, log
 
 
+_lines = {}
+
+
 def line_of(path, n):
-    with open(path) as f:
-        for i, line in enumerate(f, 1):
-            if i == n:
-                return json.loads(line)
-    return None
+    if path not in _lines:
+        with open(path) as f:
+            _lines[path] = f.readlines()
+    ls = _lines[path]
+    return json.loads(ls[n - 1]) if 1 <= n <= len(ls) else None
 
 
 def model_checks(v, configs):
